@@ -17,6 +17,8 @@ MULTI_POOL = ["A128KW", "A192KW", "A256KW", "RSA-OAEP", "RSA1_5", "RSA-OAEP-256"
 
 
 def plain_of(name, rng) -> bytes:
+    if name.startswith("rnd"):
+        return rng.randbytes(int(name[3:]))      # incompressible: its DEFLATE stream is longer than the plaintext
     if name.startswith("big"):
         n = int(name[3:])
         unit = bytes(rng.randrange(4) for _ in range(4096))  # compressible, not constant
